@@ -2167,7 +2167,9 @@ func (c *OutputConfig) WriteLine(file OutWriter) error {
 			}
 			outLine.Add(col.FormatStr, valAtIdx)
 		default:
+			// column bound to a variable kind that cannot be formatted: keep the column count, print the n.a. value
 			fmt.Println("unknown")
+			outLine.Add(col.FormatStr, c.NotAvailableValue)
 		}
 	}
 	var err error
